@@ -311,3 +311,34 @@ Example C01_source_nonvacuous :
     (Some (SV.Rs.Prelude.VInt (SV.Int.Model.Small (-1)))) = SV.Rs.Prelude.ROk (-1, -1, -1) /\
   SV.Extracted.RsConv.rs_convert_indices 3 (Some (-5)) (Some (-100)) = (0, 0).
 Proof. split; vm_compute; reflexivity. Qed.
+
+(* ---- range(): length, truth and membership as translated from range_type.rs on this run ------------ *)
+From SV Require Extracted.RsRange.
+
+Theorem C01_source_range_length : forall lo hi st,
+  SV.Rs.Proofs.i32b lo -> SV.Rs.Proofs.i32b hi -> SV.Rs.Proofs.i32b st -> st <> 0 ->
+  SV.Extracted.RsRange.rs_range_length {| SV.Rs.Prelude.f_start := lo; SV.Rs.Prelude.f_stop := hi; SV.Rs.Prelude.f_step := st |} =
+  (let n := SV.Core.Values.range_len lo hi st in
+   if n <=? 2147483647 then SV.Rs.Prelude.ROk n else SV.Rs.Prelude.RErr SV.Rs.Prelude.E_IntegerOverflow).
+Proof. exact SV.Rs.Proofs.rs_range_length_eq. Qed.
+
+Theorem C01_source_range_truth : forall lo hi st, st <> 0 ->
+  SV.Extracted.RsRange.rs_range_to_bool {| SV.Rs.Prelude.f_start := lo; SV.Rs.Prelude.f_stop := hi; SV.Rs.Prelude.f_step := st |} =
+  (0 <? SV.Core.Values.range_len lo hi st).
+Proof. exact SV.Rs.Proofs.rs_range_to_bool_eq. Qed.
+
+Theorem C01_source_range_contains : forall lo hi st x,
+  SV.Rs.Proofs.i32b lo -> SV.Rs.Proofs.i32b hi -> SV.Rs.Proofs.i32b st -> st <> 0 ->
+  SV.Int.Model.wf (SV.Int.Model.Small x) ->
+  SV.Extracted.RsRange.rs_range_is_in {| SV.Rs.Prelude.f_start := lo; SV.Rs.Prelude.f_stop := hi; SV.Rs.Prelude.f_step := st |}
+    (SV.Rs.Prelude.VInt (SV.Int.Model.Small x)) =
+  SV.Rs.Prelude.ROk (if 0 <? st then andb (andb (lo <=? x) (x <? hi)) ((x - lo) mod st =? 0)
+                     else andb (andb (hi <? x) (x <=? lo)) ((lo - x) mod (- st) =? 0)).
+Proof. exact SV.Rs.Proofs.rs_range_is_in_spec. Qed.
+
+Example C01_source_range_nonvacuous :
+  SV.Extracted.RsRange.rs_range_length {| SV.Rs.Prelude.f_start := -2147483648; SV.Rs.Prelude.f_stop := 2147483647; SV.Rs.Prelude.f_step := 1 |}
+    = SV.Rs.Prelude.RErr SV.Rs.Prelude.E_IntegerOverflow /\
+  SV.Extracted.RsRange.rs_range_length {| SV.Rs.Prelude.f_start := 10; SV.Rs.Prelude.f_stop := 0; SV.Rs.Prelude.f_step := -3 |}
+    = SV.Rs.Prelude.ROk 4.
+Proof. split; vm_compute; reflexivity. Qed.
